@@ -117,9 +117,18 @@ def current_skeleton():
 
     def elide(tree):
         try:
-            return py2coq_kernel.elide(tree)
+            out = py2coq_kernel.elide(tree)
         except Exception:
             return {}
+        # statements the top-level translator INTERPRETS (scalar / index / coordinate statements, raises, the conditionals
+        # around them) are judged by Bridge/SolverTopBridge.v, not by their text; a run of them is one placeholder line
+        try:
+            import py2coq_solvertop
+            for k, v in py2coq_solvertop.elide(tree).items():
+                out.setdefault(k, v)
+        except Exception:
+            pass
+        return out
 
     return skeleton.module_skeleton(SOLVER(), [SST, IVP], SLICES + ZSLICES, elide)
 
